@@ -335,7 +335,8 @@ def rule_7(ctx):
     close += [('COS', (x,), math.cos(x)) for x in (1e5, 1e9, 12345.678, -98765.4321, 710.0, 0.5, 3.0, 6.3, 44.0, 1e4)]
     close += [('TAN', (x,), math.tan(x)) for x in (12345.678, 1e6, -98765.4321, 0.5, 3.0, 7.0, 1e3)]
     close += [('DEGREES', (1e6,), math.degrees(1e6)), ('RADIANS', (1e6,), math.radians(1e6)), ('ATAN', (1e6,), math.atan(1e6)), ('ACOS', (0.5,), math.acos(0.5)),
-              ('ASIN', (-0.25,), math.asin(-0.25)), ('EXP', (10,), math.exp(10)), ('EXP', (-700,), math.exp(-700)), ('LN', (1e10,), math.log(1e10)),
+              ('ASIN', (-0.25,), math.asin(-0.25)), ('EXP', (10,), math.exp(10)), ('EXP', (-700,), math.exp(-700)), ('EXP', (-1000,), 0.0), ('EXP', (-745,), math.exp(-745)), ('EXP', (-710,), math.exp(-710)),
+              ('EXP', (700,), math.exp(700)), ('SIN', (1e-310,), math.sin(1e-310)), ('ATAN', (1e-320,), math.atan(1e-320)), ('LN', (1e10,), math.log(1e10)),
               ('LOG10', (12345.678,), math.log10(12345.678)), ('SQRT', (2,), math.sqrt(2)), ('SQRT', (1e-300,), math.sqrt(1e-300)), ('COSH', (3,), math.cosh(3)),
               ('ASINH', (3,), math.asinh(3)), ('ACOSH', (3,), math.acosh(3)), ('POWER', (2.5, 3.5), 2.5 ** 3.5), ('ATAN2', (1, 2), math.atan2(2, 1)),
               ('ATAN2', (-3, 1e-9), math.atan2(1e-9, -3)), ('LOG', (1e10, 7), math.log(1e10, 7))]
@@ -358,7 +359,26 @@ def rule_7(ctx):
                    f'{name}({", ".join(map(repr, args))}) gives {got!r}, the reference value is {want!r}'
                    + (f' ({_ulps(float(got), float(want)):.3g} units in the last place away)' if is_num else '')
                    + ': the decimal rounding in Excel\'s direction / the correctly rounded IEEE value, for every magnitude')
-    ctx.floor(70, 'reference rows')
+    # calls made one after the other in ONE process - also after calls that fail - give what each gives in a process of its own
+    from xlsa.guards import World
+    seq = [('ROUND', (2.5, 0)), ('ROUNDDOWN', (1e25, 5)), ('ROUND', (2.5, 0)), ('ROUND', (-2.5, 0)), ('ROUND', (1.25, 1)), ('INT', (-1e30,)), ('ROUND', (1.3, 0)),
+           ('ROUNDUP', (1e25, 5)), ('ROUND', (0.5, 0)), ('CEILING', (7.3, 0.7)), ('ROUNDUP', (1.11, 1)), ('ROUND', (2.675, 2)), ('ROUNDDOWN', (1.19, 1)), ('ROUND', (1.005, 2)),
+           ('CEILING', (1.15, 0.1)), ('TRUNC', (2.675, 2)), ('INT', (-2.5,)), ('ROUND', (-0.5, 0)), ('EVEN', (3.2,)), ('ROUND', (3.5, 0)), ('FLOOR', (2.5, 1)), ('ROUND', (4.5, 0))]
+    shared = World()
+
+    def outcome(name, args, world):
+        out = V.call(ctx, name, [V.num(a) for a in args], models=models, world=world)
+        return V.norm(out.value) if out.end == 'return' else f'<{out.end} {V.norm(out.value)!r}>'
+    alone = {}
+    for i, (name, args) in enumerate(seq):
+        if (name, args) not in alone:
+            alone[(name, args)] = outcome(name, args, None)
+        got = outcome(name, args, shared)
+        n += 1
+        ctx.expect(got == alone[(name, args)], V.registered(ctx, name).node, f'call {i + 1} of a sequence in one process: {name}{args!r}',
+                   f'{name}{args!r} gives {got!r} as call {i + 1} of a sequence of rounding calls in one process ({", ".join(f"{n_}{a_!r}" for n_, a_ in seq[max(0, i - 3):i])} '
+                   f'before it) and {alone[(name, args)]!r} on its own: the rounding direction of one call is no business of the next')
+    ctx.floor(90, 'reference rows')
 
 
 RULES = [
